@@ -90,16 +90,26 @@ def main():
                 print("cannot infer demo command; meta:", meta.get("demo"))
                 return 2
         res = {}
+        rebased = False
+        rebased_diff = None
         for phase in ("without", "with"):
             if phase == "with":
                 rc, o = sh(f"git apply {os.path.join(out, 'patch.diff')}", wt)
                 if rc != 0:
-                    print("PATCH DOES NOT APPLY on current HEAD:", o)
-                    return 1
+                    # the tree moved on (hook lines, later fixes): try a 3-way merge of the patch
+                    rc, o = sh(f"git apply --3way {os.path.join(out, 'patch.diff')}", wt)
+                    if rc != 0:
+                        print("PATCH DOES NOT APPLY on current HEAD (also not 3-way):", o)
+                        return 1
+                    rebased = True
+                    log.append("patch applied with --3way on the current HEAD; patch.diff regenerated from the result")
                 rc, o = sh("go build ./cli/... ./config/... ./engine/... ./interpreter/... ./parser/... ./scope/... ./stdlib/... ./util/...", wt)
                 if rc != 0:
                     print("does not build:", o[-500:])
                     return 1
+            if phase == "with" and rebased:
+                # demo files are untracked; diff of tracked files only
+                rebased_diff = subprocess.run(["git", "-C", wt, "diff", "HEAD"], capture_output=True, text=True).stdout
             allok = True
             for c in cmds:
                 rc, o = sh(c, wt)
@@ -133,6 +143,8 @@ def main():
             dst = os.path.join("/verif/seeded", name)
             os.makedirs(dst, exist_ok=True)
             shutil.copy(os.path.join(out, "patch.diff"), dst)
+            if rebased_diff:
+                open(os.path.join(dst, "patch.diff"), "w").write(rebased_diff)
             for d in demos:
                 if os.path.isdir(d):
                     shutil.copytree(d, os.path.join(dst, os.path.basename(d)), dirs_exist_ok=True)
